@@ -45,5 +45,35 @@ pub fn build_points() -> Points {
             r1.push((pk.as_bytes().to_vec(), msg.to_vec(), sig.to_bytes().to_vec()));
         }
     }
-    Points { g1, g2, k1, r1 }
+    // invalid blobs: a valid point with one coordinate bit flipped (off curve or
+    // not in the subgroup with overwhelming probability), x >= p, junk
+    let mut bad_g1 = Vec::new();
+    let mut bad_g2 = Vec::new();
+    for (i, p) in g1.iter().take(3).enumerate() {
+        let mut b = p.clone();
+        b[40 - i] ^= 0x10;
+        if G1Element::from_bytes(&b.clone().try_into().unwrap()).is_err() {
+            bad_g1.push(b);
+        }
+    }
+    bad_g1.push({
+        let mut b = vec![0xffu8; 48];
+        b[0] = 0x9f;
+        b
+    });
+    bad_g1.push(vec![0x33u8; 48]);
+    for (i, p) in g2.iter().take(3).enumerate() {
+        let mut b = p.clone();
+        b[80 - i] ^= 0x10;
+        if G2Element::from_bytes(&b.clone().try_into().unwrap()).is_err() {
+            bad_g2.push(b);
+        }
+    }
+    bad_g2.push({
+        let mut b = vec![0xffu8; 96];
+        b[0] = 0x9f;
+        b
+    });
+    bad_g2.push(vec![0x33u8; 96]);
+    Points { g1, g2, k1, r1, bad_g1, bad_g2 }
 }
